@@ -195,6 +195,10 @@ impl Prop for C17 {
     }
     fn gen(&self, rng: &mut Rng, _tier: Tier, _idx: u64) -> Case {
         let mut c = self.base_case(rng);
+        // now and then a file that outgrows the readers' buffers (BufReader 8 KiB, flate2 32 KiB)
+        if rng.chance(1, 40) {
+            c.layout.padding_kb = *rng.pick(&[9u8, 17, 40, 70]);
+        }
         let mode = rng.below(20);
         let (text, bytes) = bytes_of(&c);
         let len = bytes.len() as u64;
@@ -214,6 +218,11 @@ impl Prop for C17 {
                 }
                 _ => Chunk::Rand { max: 1 + rng.below(20) as u32, seed: rng.next() },
             };
+        }
+        if c.layout.padding_kb > 0 {
+            if let Chunk::One = c.chunk_r {
+                c.chunk_r = Chunk::Rand { max: 4096, seed: rng.next() };
+            }
         }
         match mode {
             0..=6 => {}
@@ -293,6 +302,12 @@ impl Prop for C17 {
     fn exec(&self, case: &Case, x: &mut Exec) {
         let (_text, bytes) = bytes_of(case);
         x.nontrivial = !case.model.cols.is_empty();
+        if bytes.len() > 8192 {
+            x.count("probe.file_larger_than_bufreader");
+        }
+        if bytes.len() > 32768 {
+            x.count("probe.container_larger_than_flate2_buffer");
+        }
         let path = x.path(FILE);
         if case.entry == Entry::File {
             x.begin_op(99);
@@ -377,6 +392,11 @@ impl Prop for C17 {
         }
         if c.flip_bit.is_some() {
             out.push(Case { flip_bit: None, ..c.clone() });
+        }
+        if c.layout.padding_kb > 0 {
+            let mut n = c.clone();
+            n.layout.padding_kb = 0;
+            out.push(n);
         }
         if c.corrupt.is_none() {
             for i in 0..c.model.rows.len() {
@@ -481,7 +501,7 @@ impl Prop for C17 {
         vec!["the byte stream (SimReader) and libc read/open (fault plan applied, then the real call)", "the producer of the file (independent renderer + gzip writer)"]
     }
     fn required_probes(&self, _t: Tier) -> Vec<&'static str> {
-        vec!["fault.eio_read", "fault.eintr_read", "fault.short_read", "fault.open_fail", "probe.malformed_rejected", "probe.err_after_hard_fault", "probe.err_after_bit_flip", "probe.ok_despite_bit_flip", "sys.read", "sys.getrandom"]
+        vec!["fault.eio_read", "fault.eintr_read", "fault.short_read", "fault.open_fail", "probe.malformed_rejected", "probe.err_after_hard_fault", "probe.err_after_bit_flip", "probe.ok_despite_bit_flip", "probe.file_larger_than_bufreader", "probe.container_larger_than_flate2_buffer", "sys.read", "sys.getrandom"]
     }
 }
 
